@@ -141,6 +141,42 @@ theorem absOk_addQuestion_cur {a a' : Message.AState} {d : Message.Decoded} {n :
   | none => rw [he] at h; cases h
   | some e => rw [he] at h; simp only [Except.ok.injEq] at h; subst h; rfl
 
+theorem absOk_hdr (op : Op) (a a' : Message.AState) (d : Message.Decoded)
+    (habs : Message.absOk a d (Driver.toSpecOp op) = .ok a') : a'.hdr = hdrStep a.hdr op := by
+  cases op with
+  | addQuestion n t c =>
+    simp only [Driver.toSpecOp, Message.absOk] at habs
+    cases he : Message.endOf d a.itemIdx with
+    | none => rw [he] at habs; cases habs
+    | some e => rw [he] at habs; simp only [Except.ok.injEq] at habs; subst habs; rfl
+  | addRr sec hn o ty cls ttl rd hv =>
+    simp only [Driver.toSpecOp, Message.absOk] at habs
+    (repeat' split at habs) <;> first
+      | (simp only [Except.ok.injEq] at habs; subst habs; rfl)
+      | cases habs
+  | addRrset sec hn o ty cls ttl rds hv =>
+    simp only [Driver.toSpecOp, Message.absOk] at habs
+    (repeat' split at habs) <;> first
+      | (simp only [Except.ok.injEq] at habs; subst habs; rfl)
+      | cases habs
+  | setTsig m rr =>
+    simp only [Driver.toSpecOp, Message.absOk] at habs
+    split at habs
+    · cases habs
+    · simp only [Except.ok.injEq] at habs; subst habs; rfl
+  | setQr v => simp only [Driver.toSpecOp, Message.absOk, Except.ok.injEq] at habs; subst habs; rfl
+  | setAa v => simp only [Driver.toSpecOp, Message.absOk, Except.ok.injEq] at habs; subst habs; rfl
+  | setTc v => simp only [Driver.toSpecOp, Message.absOk, Except.ok.injEq] at habs; subst habs; rfl
+  | setRd v => simp only [Driver.toSpecOp, Message.absOk, Except.ok.injEq] at habs; subst habs; rfl
+  | setRa v => simp only [Driver.toSpecOp, Message.absOk, Except.ok.injEq] at habs; subst habs; rfl
+  | _ =>
+    simp only [Driver.toSpecOp, Message.absOk] at habs
+    (repeat' split at habs) <;> first
+      | (simp only [Except.ok.injEq] at habs; subst habs; rfl)
+      | cases habs
+
+theorem hdrStep_z (h : Message.Header) (op : Op) : (hdrStep h op).z = h.z := by cases op <;> rfl
+
 /-- **the walk of the specification over a segment**: on the statuses the model reports and the
     decoded finished message, `walk` accepts every call and reaches `checkSegment` in an abstract
     state that describes the final writer state -/
@@ -151,19 +187,22 @@ theorem walk_segment {sR : State} (hcurR : sR.cursor ≤ 65535) (d : Message.Dec
       (d.extents.map (·.2)).take (qs.length + rs.length) = qs.map qEnd ++ rs.map rEnd) :
     ∀ (ops : List Op) (ss : Session) (b : Body) (mb : MBody) (a : Message.AState),
       I ss.w → CLay (fun _ => True) ss.w b mb → AbsNum ss.w a → IdxOK a → a.itemIdx = bodyLen b →
+      a.hdr = specHeader ss.w.octets → a.hdr.z = 0 → (∀ op ∈ ops, op.Typed) →
       Respects ss ops → (∀ op ∈ ops, op ≠ .clearRrs ∧ op ≠ .getters ∧ NonEmptySet op) → (run ss ops).1.w = sR →
-      ∃ aF, AbsNum sR aF ∧
+      ∃ aF, AbsNum sR aF ∧ aF.hdr = specHeader sR.octets ∧ aF.hdr.z = 0 ∧
         Message.walk false a (ops.map Driver.toSpecOp) ((run ss ops).2.map Driver.statusStr ++ ["ok"]) [m] (some d) mac' =
           Message.checkSegment false aF d m.size mac' := by
   intro ops
   induction ops with
   | nil =>
-    intro ss b mb a hI hL hA hidx hlen _ _ hfin
-    refine ⟨a, by rw [← hfin]; exact hA, ?_⟩
+    intro ss b mb a hI hL hA hidx hlen hh hz _ _ _ hfin
+    refine ⟨a, by rw [← hfin]; exact hA, by rw [← hfin]; exact hh, hz, ?_⟩
     simp [run, Message.walk]
   | cons op ops ih =>
-    intro ss b mb a hI hL hA hidx hlen hr hno hfin
+    intro ss b mb a hI hL hA hidx hlen hh hz ht hr hno hfin
     obtain ⟨hop, hrest⟩ := hr
+    have ht' : ∀ op' ∈ ops, op'.Typed := fun op' h => ht op' (List.mem_cons_of_mem _ h)
+    have hhs := hdr_step ss op hI.inv (ht op List.mem_cons_self)
     obtain ⟨hnp, hI'⟩ := step_I ss op hI hop
     obtain ⟨hnc, hng, hnes⟩ := hno op List.mem_cons_self
     have hno' : ∀ op' ∈ ops, op' ≠ .clearRrs ∧ op' ≠ .getters ∧ NonEmptySet op' :=
@@ -175,7 +214,7 @@ theorem walk_segment {sR : State} (hcurR : sR.cursor ≤ 65535) (d : Message.Dec
     unfold run at hfin ⊢
     cases hs : step ss op with
     | mk r ss' =>
-      rw [hs] at hnp hI' hrest hL' hfin hjust hsame
+      rw [hs] at hnp hI' hrest hL' hfin hjust hsame hhs
       cases r with
       | panic => exact absurd rfl hnp
       | err e =>
@@ -184,9 +223,14 @@ theorem walk_segment {sR : State} (hcurR : sR.cursor ≤ 65535) (d : Message.Dec
         cases hrun : run ss' ops with
         | mk ss'' rs =>
           rw [hrun] at hfin
-          obtain ⟨aF, hAF, hw⟩ := ih ss' b mb a hI' hL' hA' hidx hlen hrest hno' (by rw [hrun]; exact hfin)
+          have hh' : a.hdr = specHeader ss'.w.octets := by
+            have := hhs (by simp)
+            simp only [reduceCtorEq, if_false] at this
+            rw [this]; exact hh
+          obtain ⟨aF, hAF, hF1, hF2, hw⟩ := ih ss' b mb a hI' hL' hA' hidx hlen hh' hz ht' hrest hno'
+            (by rw [hrun]; exact hfin)
           rw [hrun] at hw
-          refine ⟨aF, hAF, ?_⟩
+          refine ⟨aF, hAF, hF1, hF2, ?_⟩
           simp only [List.map_cons, List.cons_append]
           rw [walk_default _ _ _ _ _ _ _ _ hs1 hs2, statusStr_err_ne_ok]
           simp only [Bool.false_eq_true, if_false, Bool.false_or, hjust e rfl, if_true]
@@ -260,10 +304,16 @@ theorem walk_segment {sR : State} (hcurR : sR.cursor ≤ 65535) (d : Message.Dec
           obtain ⟨hidx', hidxeq⟩ := absOk_idx op a a' d hnc habs hidx
           have hlen' : a'.itemIdx = bodyLen (bodyStep b op) := by
             rw [hidxeq, bodyLen_step b op hnc, hlen]
-          obtain ⟨aF, hAF, hw⟩ := ih ss' (bodyStep b op) _ a' hI' hL' hA' hidx' hlen' hrest hno'
+          have hah := absOk_hdr op a a' d habs
+          have hh' : a'.hdr = specHeader ss'.w.octets := by
+            have := hhs (by simp)
+            simp only [if_true] at this
+            rw [this, hah, hh]
+          have hz' : a'.hdr.z = 0 := by rw [hah, hdrStep_z]; exact hz
+          obtain ⟨aF, hAF, hF1, hF2, hw⟩ := ih ss' (bodyStep b op) _ a' hI' hL' hA' hidx' hlen' hh' hz' ht' hrest hno'
             (by rw [hrun]; exact hfin)
           rw [hrun] at hw
-          refine ⟨aF, hAF, ?_⟩
+          refine ⟨aF, hAF, hF1, hF2, ?_⟩
           simp only [List.map_cons, List.cons_append]
           rw [walk_default _ _ _ _ _ _ _ _ hs1 hs2]
           have hokstr : (Driver.statusStr (.ok u) == "ok") = true := by cases u; decide
@@ -284,6 +334,7 @@ theorem walk_from_new (macFn : Tsig → List UInt8 → List UInt8) (hmac : MacLe
     (hno : ∀ op ∈ ops, op ≠ .clearRrs ∧ op ≠ .getters ∧ NonEmptySet op) (mac' : Option (List UInt8)) :
     ∃ m mac d aF, finish (run { w := { s0 with mode := mode } } ops).1.w macFn = .ok (m, mac) ∧
       Message.specDecodeMsg m = some d ∧ AbsNum (run { w := { s0 with mode := mode } } ops).1.w aF ∧
+      aF.hdr = d.msg.header ∧ aF.hdr.z = 0 ∧
       Message.walk false
           { mode := Driver.toSpecMode mode, buflen := buf.size, limit := min limit buf.size }
           (ops.map Driver.toSpecOp)
@@ -322,8 +373,11 @@ theorem walk_from_new (macFn : Tsig → List UInt8 → List UInt8) (hmac : MacLe
     rw [hd] at hd'
     cases hd'
     exact h qs rs hq hr'
-  obtain ⟨aF, hAF, hw⟩ := walk_segment hcurR d m mac' hpre ops { w := { s0 with mode := mode } } {} {} _ hI0 hL0 hA0
-    rfl rfl hr hno hsR
-  exact ⟨m, mac, d, aF, hf, hd, hAF, hw⟩
+  obtain ⟨aF, hAF, hF1, hF2, hw⟩ := walk_segment hcurR d m mac' hpre ops { w := { s0 with mode := mode } } {} {} _
+    hI0 hL0 hA0 rfl rfl (by show _ = specHeader s0.octets; rw [hdr_new buf limit s0 hnew]) rfl ht hr hno hsR
+  obtain ⟨d2, _, _, _, _, hd2, hh2, _⟩ := finish_refines macFn sR B MB hIR hLR hst m mac hf hsz
+  rw [hd] at hd2
+  cases hd2
+  exact ⟨m, mac, d, aF, hf, hd, hAF, by rw [hF1, hh2], hF2, hw⟩
 
 end QV.Writer
